@@ -51,6 +51,9 @@ type Prog struct {
 	quiet        map[*FuncInfo]bool
 	mutVars      map[*types.Var]bool
 	vtaG         *vtaGraph
+	renamed      map[string]string // frozen function key → key it has now (renames.go)
+	renamedBare  map[string]string // frozen bare name → bare name now
+	methodToFunc map[string]string // frozen method name → plain function it became
 }
 
 // FuncInfo is one source function (declaration) of a repo package.
@@ -59,7 +62,8 @@ type FuncInfo struct {
 	Decl *ast.FuncDecl
 	Obj  *types.Func
 	File *ast.File
-	Name string // Recv.Name or Name
+	Name string // Recv.Name or Name (the frozen name when the function was renamed)
+	Now  string // the name in the source when it differs from Name
 }
 
 func (f *FuncInfo) Key() string       { return shortPkg(f.Pkg.PkgPath) + "." + f.Name }
@@ -183,6 +187,7 @@ func (p *Prog) index() {
 			}
 		}
 	}
+	p.resolveRenames()
 	sort.Slice(p.funcList, func(i, j int) bool {
 		a, b := p.funcList[i], p.funcList[j]
 		if a.Pkg.PkgPath != b.Pkg.PkgPath {
